@@ -254,14 +254,16 @@ def classify(report: dict, site_locs: dict, violset: set) -> dict:
     scoped = {l for l in locs if in_scope(l)}
     if not scoped:
         return {"class": "out-of-scope", "detail": ", ".join(sorted(short(l) for l in locs))}
+    roles_known = bool(infos[0][1]) and len(infos) > 1 and bool(infos[1][1])
     ra = infos[0][1] or set(ROLE_ORDER)
     rb = (infos[1][1] if len(infos) > 1 else set()) or set(ROLE_ORDER)
     hit_locs = sorted({short(l) for l in scoped for a in ra for b in rb if (l, *sorted([a, b])) in violset})
     hits = sorted({signature(l, a, b) for l in scoped for a in ra for b in rb if (l, *sorted([a, b])) in violset})
-    detail = {"locations": sorted(short(l) for l in scoped), "roles": [sorted(ra), sorted(rb)],
-              "frames": [i[2] for i in infos], "weak": weak}
+    detail = {"locations": sorted(short(l) for l in scoped), "roles": [sorted(infos[0][1]), sorted(infos[1][1]) if len(infos) > 1 else []],
+              "frames": [i[2] for i in infos], "weak": weak, "roles_known": roles_known}
     if hits:
-        return {"class": "matched", "hits": hits, "hit_locations": hit_locs, **detail}
+        # a signature counts as observed only when both threads' roles could be read off the stacks
+        return {"class": "matched", "hits": hits if roles_known else [], "hit_locations": hit_locs, **detail}
     return {"class": "unpredicted", **detail}
 
 
@@ -464,6 +466,7 @@ def run(tier, seed, replay=None):
         matched_sigs = sorted({h for c in classes if c["class"] == "matched" for h in c["hits"]})
         matched_locs = sorted({l for c in classes if c["class"] == "matched" for l in c["hit_locations"]})
         hist["matched_with_disagreeing_stacks"] = sum(1 for c in classes if c["class"] == "matched" and c.get("weak"))
+        hist["matched_location_only"] = sum(1 for c in classes if c["class"] == "matched" and not c.get("roles_known"))
         ctx.coverage["tsan_matched_signatures"] = matched_sigs
         ctx.coverage.update({"tsan_reports": len(reports), "tsan_by_class": hist, "tsan_matched_locations": matched_locs,
                              "tsan_harness_stats": stats, "tsan_runs": [list(r) for r in runs]})
